@@ -235,7 +235,22 @@ def judge (force : Nat) (st : St) (method path : Bytes) (hs : List (Bytes × Byt
       if !cacheMethod then
         -- C10: only GET and HEAD are ever answered from the cache
         add st1 ["bad:C10:request-with-a-method-other-than-GET-or-HEAD-answered-without-the-origin"] [] "hit:uncacheable-method" else
-      if conditional then add st1 [] [] "hit:conditional" else
+      if conditional then
+        -- C09 on a conditional hit: a 304 without origin contact for a validator the origin has since been SEEN to have
+        -- replaced - a later complete answer for this key with another body, not served stale-if-error - misreports the
+        -- content (seeded change C09-m8; the bodiless case is finding C09-e)
+        let inm := (valuesCI hs b!"if-none-match").headD []
+        let old? := (st.all.filter (·.path == path)).reverse.find? (fun x => inm ≠ [] && (valuesCI x.headers b!"etag").headD [] == inm)
+        let later := match old? with
+          | some s =>
+            let tFill := ((st.fetches.filter fun (f : Fetch) => f.key.1 == path && f.origin.body == s.body).map Fetch.time).foldl max 0
+            st.fetches.filter fun (f : Fetch) => f.key.1 == path && f.time ≥ tFill && f.origin.body != s.body && !f.servedStale && !f.via304 &&
+              f.origin.readErrAt.isNone && (f.method == b!"GET")
+          | none => []
+        let bad304 : Bool := o.status == 304 && !ranged && !later.isEmpty
+        let cls9e : Bool := later.any fun (f : Fetch) => !inGate f.origin.status && f.origin.body == []
+        add st1 (if bad304 then ["bad:C09:304-without-contact-for-a-validator-the-origin-has-since-replaced"] else [])
+          (if bad304 && cls9e then ["C09-e"] else []) "hit:conditional" else
       match src? with
       | none =>
         if o.body == [] ∧ (method == b!"HEAD" ∨ (st.all.filter (·.path == path)).any (·.body == [])) then add st1 [] [] "hit:empty-body"
